@@ -489,14 +489,23 @@ func mustPassFrom(f *ssa.Function, start *ssa.BasicBlock, startIdx int, targets 
 // of the guards. Emits one obligation per target.
 func (c *Ctx) Dom(name string, f *ssa.Function, targets []Site, what string, guards ...Guard) {
 	c.Funcs[f] = true
-	var gd []string
+	var gd, missing []string
+	var present []Guard
 	for _, g := range guards {
-		gd = append(gd, g.Desc)
 		if g.Sites == 0 {
-			c.Bad(name+"/"+fnName(f)+"/guard", f.Pos(), "guard not present in function: "+g.Desc)
-			return
+			missing = append(missing, g.Desc)
+			continue
 		}
+		gd = append(gd, g.Desc)
+		present = append(present, g)
 	}
+	// alternatives: at least one must exist in the function; absent ones simply
+	// cannot be passed
+	if len(present) == 0 {
+		c.Bad(name+"/"+fnName(f)+"/guard", f.Pos(), "guard not present in function: "+strings.Join(missing, " | "))
+		return
+	}
+	guards = present
 	if len(targets) == 0 {
 		c.Undecided(name+"/"+fnName(f)+"/"+what, f.Pos(), "no target site matched ("+what+")")
 		return
